@@ -373,6 +373,12 @@ func checkPreloadedDirIsLoaded(c *mon.Case, e *entity) {
 		{"the preloaded node handed to the preload reifier again", func() (ipld.Node, error) {
 			return ls.KnownReifiers["unixfs-preload"](ipld.LinkContext{Ctx: bg}, node, ls)
 		}},
+		{"a node preloaded under a request context that has ended since (the node was kept, the request is over)", func() (ipld.Node, error) {
+			cctx, cancel := context.WithCancel(bg)
+			n, err := ls.KnownReifiers["unixfs-preload"](ipld.LinkContext{Ctx: cctx}, raw, ls)
+			cancel()
+			return n, err
+		}},
 	}
 	names := sortedKeys(e.Model)
 	for vi, v := range variants {
